@@ -144,6 +144,18 @@ complete operand, is not what ends a statement; only the postfix rule is line-br
 theorem C14_linebreak_tests_vacuous (ts : List TK) (nl : Nat → Bool) (f mp i : Nat) :
     exprPrec ts nl f true mp i = exprPrec ts nl f false mp i := (stop_irrelevant ts nl f).1 mp i
 
+/-- translator tie: the data the model fixes is what `cst_parser.rs` says today (re-extracted on every run into
+`Gen/C14.lean`): the postfix openers are exactly `(`, `.`, `[`; there are five `has_trailing_linebreak()` call
+sites (two in the Pratt loop and one in the postfix loop — modelled; one in the block loop and one in the match-arm
+loop — both of the form "if line break then continue the loop" and not modelled); every infix precedence is
+positive (`parse_expr_with_precedence(0)` terminates). A change of any of these breaks this obligation. -/
+theorem C14_extracted_parser_data :
+    Mimium.Gen.C14.postfixOpeners = ["ParenBegin", "Dot", "ArrayBegin"]
+    ∧ Mimium.Gen.C14.linebreakSites = 5
+    ∧ (∀ e ∈ Mimium.Gen.C14.infixPrecTable, 0 < e.2)
+    ∧ Mimium.Gen.C14.infixPrecTable.lookup "OpSum" = some Mimium.Gen.C14.minusPrec := by
+  decide
+
 /-! non-vacuity: a break in front of `(` *does* change the parse: `f(x)` is one statement, `f⏎(x)` is two -/
 def exCall : List TK := [.atom, .lparen, .atom, .rparen]
 example : (stmts exCall (fun _ => false) 5 0).length = 1 := by decide +kernel
